@@ -22,7 +22,7 @@ pub struct BodyEntry {
 }
 
 fn tok<T: ToTokens>(t: &T) -> Val {
-    Val::Tok(t.to_token_stream().to_string())
+    Val::Tok(crate::run::show(t))
 }
 
 /// (k value, error displays) of the `#[a(..)]` attributes in `attrs` (forms are fixed).
@@ -267,10 +267,12 @@ pub fn variant_form(i: usize, name: &str) -> String {
         10 => format!("{name}() = 6"),
         11 => format!("{name} {{ #[a(k = \"bad\", zz)] x: u8 }}"),
         12 => format!("{name} {{ y: u8, #[a(k = \"bad\", zz)] x: (T, u8) }}"),
+        // a discriminant is handed over as the expression it is, whatever it looks like
+        13 => format!("{name} = \"two words\""),
         _ => unreachable!(),
     }
 }
-pub const N_VARIANT_FORMS: usize = 13;
+pub const N_VARIANT_FORMS: usize = 14;
 
 pub const GENERICS: [(&str, &str); 7] = [
     ("<T, const N: usize, U: Send, 'a, X = u8>", ""),
@@ -444,7 +446,7 @@ pub fn expectation(entry: &BodyEntry, src: &str) -> Option<Result<Val, Vec<Error
 }
 
 fn expectation_inner(entry: &BodyEntry, src: &str) -> Option<Result<Val, Vec<Error>>> {
-    let di: syn::DeriveInput = syn::parse_str(src).ok()?;
+    let di: syn::DeriveInput = crate::run::parse_input(src).ok()?;
     Some(match entry.tr8 {
         Trait::FromDeriveInput => exp_derive_input(&di, &entry.magic, &entry.flavor),
         Trait::FromField => {
@@ -608,6 +610,14 @@ pub fn main(entries: Vec<BodyEntry>) {
                 };
                 let obs = (e.run)(src);
                 judge(e, src, &exp, &obs, &mut t);
+                // the same item assembled in code (optional punctuation absent, forwarded
+                // fragments in invisible groups): every part still arrives unchanged
+                let built_src = format!("{src}{}", crate::run::BUILT);
+                if let Some(exp_b) = expectation(e, &built_src) {
+                    let obs_b = (e.run)(&built_src);
+                    judge(e, &built_src, &exp_b, &obs_b, &mut t);
+                    t.hit("built_in_code");
+                }
                 if t.samples.is_empty() && exp.is_err() && src.len() > 60 {
                     t.samples.push(json!({"receiver": e.name, "magic": e.magic, "flavor": e.flavor, "src": src, "observed": format!("{obs:?}").chars().take(400).collect::<String>()}));
                 }
